@@ -1,6 +1,7 @@
 (** The two view managers of the mirror kernel (tmi/statemachineviewmanager.go,
     tmi/gossipviewmanager.go) as a fold over the events the kernel model raises, and the
-    consumer-facing operations: state-machine round entrance, state-machine reads, gossip reads.
+    consumer-facing operations: state-machine round entrance, state-machine reads, gossip reads, and the
+    local validator's own actions (handleStateMachineAction).
     No proofs here. *)
 From Coq Require Import List NArith Bool String.
 From GV Require Import Base.Ints Gen.Math Gen.Kernel Model.Mirror.
@@ -12,9 +13,10 @@ Record smm := mk_smm {
   smm_h : N; smm_r : N;             (* roundEntrance.H / R *)
   smm_last : N;                     (* lastSentVersion *)
   smm_jump : option view;           (* jumpAhead *)
-  smm_out : view                    (* outgoingView *)
+  smm_out : view;                   (* outgoingView *)
+  smm_key : option N                (* roundEntrance.PubKey: the local validator's key, if it has one *)
 }.
-Definition smm0 : smm := mk_smm 0 0 0 None zero_view.
+Definition smm0 : smm := mk_smm 0 0 0 None zero_view None.
 
 (** OutgoingView of the gossip manager: the view and what was last sent of it *)
 Record gout := mk_gout { go_v : view; go_sent : N * N * N }.
@@ -29,8 +31,8 @@ Definition gm0 : gm := mk_gm gout0 gout0 gout0 None.
 Record mgrs := mk_mgrs { m_sm : smm; m_g : gm; m_committed : list N (* heights signalled on HeightCommitted *) }.
 Definition mgrs0 : mgrs := mk_mgrs smm0 gm0 [].
 
-Definition sm_set_view (m : smm) (v : view) : smm := mk_smm (smm_h m) (smm_r m) (smm_last m) (smm_jump m) v.
-Definition sm_jump_to (m : smm) (v : view) : smm := mk_smm (smm_h m) (smm_r m) (smm_last m) (Some v) (smm_out m).
+Definition sm_set_view (m : smm) (v : view) : smm := mk_smm (smm_h m) (smm_r m) (smm_last m) (smm_jump m) v (smm_key m).
+Definition sm_jump_to (m : smm) (v : view) : smm := mk_smm (smm_h m) (smm_r m) (smm_last m) (Some v) (smm_out m) (smm_key m).
 
 (** one kernel event *)
 Definition mgr_step (m : mgrs) (e : mev) : mgrs :=
@@ -73,7 +75,7 @@ Definition sm_output (m : smm) : option (option view * option view * N) :=
       end
   end.
 
-Definition sm_mark_sent (m : smm) (sv : N) : smm := mk_smm (smm_h m) (smm_r m) sv None (smm_out m).
+Definition sm_mark_sent (m : smm) (sv : N) : smm := mk_smm (smm_h m) (smm_r m) sv None (smm_out m) (smm_key m).
 
 (** gossipViewManager.Output (views only; round-session changes are not modelled) *)
 Definition g_output (g : gm) : option (option view * option view * option view * option view) :=
@@ -97,12 +99,89 @@ Record mstate := mk_ms { ms_k : kstate; ms_m : mgrs }.
 Definition ms_init (ih : N) (vs : valset) : mstate :=
   let k := init_state ih vs in mk_ms k (fold_left mgr_step (st_ev k) mgrs0).
 
+(** * The local validator's actions (kernel.go handleStateMachineAction)
+
+    The state machine hands the mirror its own proposed header, prevote and precommit through the
+    action channel of its round entrance.  The height and round of a vote are those of the state-machine
+    view manager's current entrance; the signature is filed under the entrance's public key. *)
+
+(** [SimpleCommonMessageSignatureProof.keyIdxs]: the index a key is filed under is the LAST position of
+    the candidate list holding it ([keyIdxs[string(k.PubKeyBytes())] = i] overwrites). *)
+Fixpoint key_index (keys : list N) (key : N) : option N :=
+  match keys with
+  | [] => None
+  | k :: t =>
+      match key_index t key with
+      | Some i => Some (i + 1)
+      | None => if k =? key then Some 0 else None
+      end
+  end.
+
+(** a vote action.  [h], [r], [key]: the entrance.  The sign content the state machine passes along for a
+    first vote is the sign bytes of (kind, h, r, target) - ideal-signature convention: the signature
+    verifies iff it is [SVote key kind h r target]. *)
+Definition act_vote (kind : N) (s : kstate) (h r : N) (key : option N) (target : bytes) (sg : sigd) : res kstate :=
+  bind (find_view (kpos_of s) h r) (fun fv =>
+  let '(vid, _) := fv in
+  (* "Dropping state machine vote due to not matching voting or committing view" *)
+  if negb ((vid =? ViewIDVoting) || (vid =? ViewIDCommitting)) then Ok s else
+  let v := get_view s vid in
+  (* the existing proof for the target (cloned), or a fresh one over the FOUND view's keys *)
+  bind (match pm_get (view_votes kind v) target with
+        | Some p => Ok p
+        | None =>
+            match vs_keys (v_vals v) with
+            | [] => Panic "NewSimpleCommonMessageSignatureProof: BUG: requires len(candidateKeys) > 0"
+            | _ => Ok []
+            end
+        end) (fun base =>
+  (* AddSignature(sig, StateMachineViewManager.PubKey()) *)
+  match key with
+  | None => Panic "handleStateMachineAction: AddSignature with a nil public key"
+  | Some k =>
+      match key_index (vs_keys (v_vals v)) k with
+      | None => Ok s                                      (* ErrUnknownKey: logged, dropped *)
+      | Some i =>
+          if verify_vote k kind h r target sg
+          then
+            (* addPrevote / addPrecommit with one update whose version matches: the proof is replaced,
+               summary, version bump, mark, round-store write - also when the signature was already held *)
+            apply_votes kind s vid h r [(target, add_sig base i sg)]
+          else Ok s                                       (* ErrInvalidSignature: logged, dropped *)
+      end
+  end)).
+
+(** a proposed-header action: addProposedHeader directly, WITHOUT any of the checks of HandleProposedHeader *)
+Definition act_ph (s : kstate) (p : ph) : res kstate :=
+  match hd_hash (ph_hdr p) with
+  | [] => Panic "handleStateMachineAction: BUG: no state machine action present"
+  | _ => add_ph s p
+  end.
+
+Inductive lact :=
+| ActPrevote (target : bytes) (sg : sigd)
+| ActPrecommit (target : bytes) (sg : sigd)
+| ActPH (p : ph).
+
+Definition act_step (s : kstate) (h r : N) (key : option N) (a : lact) : res kstate :=
+  match a with
+  | ActPrevote target sg => act_vote KPrevote s h r key target sg
+  | ActPrecommit target sg => act_vote KPrecommit s h r key target sg
+  | ActPH p => act_ph s p
+  end.
+
 (** consumer-facing operations *)
 Inductive mop :=
 | MK (x : xop)                      (* a kernel operation (message, crash, restart) *)
-| MEnter (h r : N)                  (* state machine enters a round *)
+| MEnter (h r : N)                  (* state machine enters a round (without a validator key) *)
 | MSMRead                           (* state machine receives from its view channel, if anything is offered *)
-| MGRead.                           (* gossip strategy receives, if anything is offered *)
+| MGRead                            (* gossip strategy receives, if anything is offered *)
+| MEnterK (h r : N) (key : option N) (* state machine enters a round and names its validator key *)
+| MAct (a : lact).                  (* the state machine's own proposed header / prevote / precommit *)
+
+Definition MActPrevote (target : bytes) (sg : sigd) : mop := MAct (ActPrevote target sg).
+Definition MActPrecommit (target : bytes) (sg : sigd) : mop := MAct (ActPrecommit target sg).
+Definition MActPH (p : ph) : mop := MAct (ActPH p).
 
 (** what the consumer got from the operation *)
 Inductive mio :=
@@ -117,6 +196,21 @@ Inductive mio :=
 
 Definition is_restart_x (x : xop) : bool := match x with XOp _ => false | _ => true end.
 
+(** handleStateMachineRoundEntrance: Reset, then respond with the view or a committed header *)
+Local Notation enter_body s h r key :=
+  (let sm := mk_smm h r 0 None (smm_out (m_sm (ms_m s))) key in
+   bind (find_view (kpos_of (ms_k s)) h r) (fun fv =>
+   let '(vid, st) := fv in
+   if st =? ViewFound then
+     let v := get_view (ms_k s) vid in
+     Ok (mk_ms (ms_k s) (mk_mgrs (mk_smm h r (v_ver v) None (smm_out sm) key) (m_g (ms_m s)) (m_committed (ms_m s))), 0, IOEnterView v)
+   else if st =? ViewBeforeCommitting then
+     match hdr_get (st_hdrs (ms_k s)) h with
+     | Some (x, cp) => Ok (mk_ms (ms_k s) (mk_mgrs sm (m_g (ms_m s)) (m_committed (ms_m s))), 0, IOEnterHeader x cp)
+     | None => Panic "handleStateMachineRoundEntrance: failed to load block from the header store"
+     end
+   else Panic "handleStateMachineRoundEntrance: TODO: handle view not found")).
+
 Definition mstep (s : mstate) (o : mop) : res (mstate * N * mio) :=
   match o with
   | MK x =>
@@ -128,20 +222,8 @@ Definition mstep (s : mstate) (o : mop) : res (mstate * N * mio) :=
       else
         let evs := skipn (List.length (st_ev (ms_k s))) (st_ev k') in
         Ok (mk_ms k' (fold_left mgr_step evs (ms_m s)), r, IONone))
-  | MEnter h r =>
-      (* handleStateMachineRoundEntrance: Reset, then respond with the view or a committed header *)
-      let sm := mk_smm h r 0 None (smm_out (m_sm (ms_m s))) in
-      bind (find_view (kpos_of (ms_k s)) h r) (fun fv =>
-      let '(vid, st) := fv in
-      if st =? ViewFound then
-        let v := get_view (ms_k s) vid in
-        Ok (mk_ms (ms_k s) (mk_mgrs (mk_smm h r (v_ver v) None (smm_out sm)) (m_g (ms_m s)) (m_committed (ms_m s))), 0, IOEnterView v)
-      else if st =? ViewBeforeCommitting then
-        match hdr_get (st_hdrs (ms_k s)) h with
-        | Some (x, cp) => Ok (mk_ms (ms_k s) (mk_mgrs sm (m_g (ms_m s)) (m_committed (ms_m s))), 0, IOEnterHeader x cp)
-        | None => Panic "handleStateMachineRoundEntrance: failed to load block from the header store"
-        end
-      else Panic "handleStateMachineRoundEntrance: TODO: handle view not found")
+  | MEnter h r => enter_body s h r (@None N)
+  | MEnterK h r key => enter_body s h r key
   | MSMRead =>
       match sm_output (m_sm (ms_m s)) with
       | Some (vv, jv, sv) =>
@@ -154,4 +236,10 @@ Definition mstep (s : mstate) (o : mop) : res (mstate * N * mio) :=
           Ok (mk_ms (ms_k s) (mk_mgrs (m_sm (ms_m s)) (g_mark_sent (m_g (ms_m s))) (m_committed (ms_m s))), 0, IOGossip c v n nl)
       | None => Ok (s, 0, IOGEmpty)
       end
+  | MAct a =>
+      (* handleStateMachineAction: a kernel-state change whose events reach the managers like those of a message *)
+      let sm := m_sm (ms_m s) in
+      bind (act_step (ms_k s) (smm_h sm) (smm_r sm) (smm_key sm) a) (fun k' =>
+      let evs := skipn (List.length (st_ev (ms_k s))) (st_ev k') in
+      Ok (mk_ms k' (fold_left mgr_step evs (ms_m s)), 0, IONone))
   end.
